@@ -189,3 +189,78 @@ func handlerCallbacksChecked(c *cx, id string) int {
 	}
 	return n
 }
+
+// staleCopies (E-stale): in f, a local that was computed from a selector path
+// (tok.Name.Space != "") is not used after that path was assigned: the copy
+// describes the value before the write. Meant for functions that complete a
+// value in place and then decide on it (the stanza encoder fills in the
+// namespace of a top-level stanza and afterwards decides, from the name,
+// whether an xmlns attribute is a duplicate).
+func staleCopies(c *cx, id string, f *eng.Fn) int {
+	g := f.Graph()
+	n := 0
+	type pathWrite struct {
+		path string
+		pt   eng.Point
+		pos  ast.Node
+	}
+	var writes []pathWrite
+	for _, w := range f.Writes() {
+		if _, isSel := ast.Unparen(w.LHS).(*ast.SelectorExpr); !isSel {
+			continue
+		}
+		pt, ok := g.Where(w.Stmt)
+		if !ok {
+			continue
+		}
+		writes = append(writes, pathWrite{f.Prog.NodeStr(w.LHS), pt, w.Stmt})
+	}
+	for _, d := range g.AllDefs() {
+		if d.Kind != eng.DefPlain || d.RHS == nil || !eng.IsLocal(d.Var) {
+			continue
+		}
+		// selector paths read by the definition
+		paths := map[string]bool{}
+		ast.Inspect(d.RHS, func(x ast.Node) bool {
+			if _, isCall := x.(*ast.CallExpr); isCall {
+				return false // a call result is a snapshot by intent
+			}
+			if sel, ok := x.(*ast.SelectorExpr); ok {
+				paths[f.Prog.NodeStr(sel)] = true
+			}
+			return true
+		})
+		if len(paths) == 0 {
+			continue
+		}
+		for _, w := range writes {
+			if !paths[w.path] || !g.Reachable(g.After(d.At), w.pt, nil, nil) {
+				continue
+			}
+			// a use of the local after the write, with this definition still reaching
+			var use ast.Node
+			f.WalkBody(func(x ast.Node) bool {
+				if use != nil {
+					return false
+				}
+				idn, ok := x.(*ast.Ident)
+				if !ok || f.Info().Uses[idn] != types.Object(d.Var) {
+					return true
+				}
+				up, oku := g.Where(idn)
+				if !oku || !g.Reachable(g.After(w.pt), up, nil, nil) {
+					return true
+				}
+				for _, rd := range g.ReachingDefs(d.Var, up) {
+					if rd == d {
+						use = idn
+					}
+				}
+				return true
+			})
+			n++
+			c.r.Check(id, f, "copy "+f.LocalName(d.Var)+" of "+w.path, "E-stale: a local computed from a selector path is not used after that path was assigned", d.Node.Pos(), use == nil, "computed at "+c.p.Pos(d.Node.Pos())+" from "+w.path+", which is assigned at "+c.p.Pos(w.pos.Pos())+"; the copy is still used afterwards (it describes the value before the write)")
+		}
+	}
+	return n
+}
